@@ -119,9 +119,12 @@ def run(scn, loop):
     ev, execs = [], []
     disp = make_dispatcher(p['dk'], execs)
 
-    def transport(text):
+    def transport(text, is_notification, kwargs):
         doc, wf, ids_ok = abstract_wire(text)
-        ev.append({'ev': 'Send', 'doc': doc, 'wf': wf, 'ids_ok': ids_ok})
+        # what else the transport is handed: the notification flag and the request arguments (client-wide ones, overridden by
+        # those given for this very request)
+        kw = {'a': 'client', 'b': 'client'} == kwargs and 'client' or ({'a': 'client', 'b': 'call'} == kwargs and 'override' or 'other:%r' % (kwargs,))
+        ev.append({'ev': 'Send', 'doc': doc, 'wf': wf, 'ids_ok': ids_ok, 'notif': is_notification is True, 'kw': kw})
         return disp.dispatch(text)              # a coroutine for the asynchronous dispatcher
 
     def after(ret):
@@ -131,14 +134,14 @@ def run(scn, loop):
     if p['ck'] == 'async':
         class C(AbstractAsyncClient):
             async def _request(self, request_text, is_notification=False, **kwargs):
-                r = transport(request_text)
+                r = transport(request_text, is_notification, kwargs)
                 if asyncio.iscoroutine(r):
                     r = await r
                 return after(r)
     else:
         class C(AbstractClient):
             def _request(self, request_text, is_notification=False, **kwargs):
-                r = transport(request_text)
+                r = transport(request_text, is_notification, kwargs)
                 if asyncio.iscoroutine(r):
                     r = loop.run_until_complete(r)
                 return after(r)
@@ -147,7 +150,7 @@ def run(scn, loop):
             yield ''
     idgen = {'sequential': generators.sequential, 'sequential0': ft.partial(generators.sequential, 0), 'empty_string': empty_string, 'randint': ft.partial(generators.randint, 1, 2 ** 40),
              'random': generators.random, 'uuid': generators.uuid}[p['idgen']]
-    client = C(id_gen_impl=idgen, strict=p['strict'], error_cls=VerifBase)
+    client = C(id_gen_impl=idgen, strict=p['strict'], error_cls=VerifBase, request_args={'a': 'client', 'b': 'client'})
     calls = p['calls']
     nt = p['notation']
 
@@ -164,7 +167,7 @@ def run(scn, loop):
             return client.notify(c0['beh'], *a0, **k0)
         if nt == 'send':
             req = pjrpc.Request(c0['beh'], list(a0) or k0, id=next(client.id_gen_impl()))
-            r = client.send(req)
+            r = client.send(req, b='call')        # a request argument given for this request only
             if asyncio.iscoroutine(r):
                 async def w():
                     return (await r).result
